@@ -133,6 +133,10 @@ def build_jobs(tier, seed):
             start_decl = ('class', start_name, ms)
             ctxname = start_kind
         helpers = [('rule', k, v) for k, v in G.HELPERS.items()]
+        if not bm:
+            # a rule that begins with a regex literal able to match the empty string, used as an entry point of its own
+            # (no leading skip there): after the empty match ignorable text is skipped like after any other match
+            helpers.append(('rule', 'NR', RIGHT(RX('b*'), S('a'))))
         ign_decls = [('ignore', nme, ex_) for nme, ex_ in igs]
         if where == 'before':
             decls = ign_decls + [start_decl] + helpers
@@ -155,10 +159,61 @@ def build_jobs(tier, seed):
             inputs_cache[key] = [(0, t) for t in ins + extra]
         req, rxs = prep_request(decls, bm)
         jobs.append({'id': len(jobs), 'text': text, 'bm': bm, 'cases': inputs_cache[key],
-                     'entries': [start_name], 'prep_entry': start_name, 'prep_request': req, 'prep_rx': rxs, 'lengthen': stretch,
+                     'entries': [start_name] + ([] if bm or no_start else ['NR']), 'prep_entry': start_name, 'prep_request': req, 'prep_rx': rxs, 'lengthen': stretch,
                      'fuel': 160, 'module_parse': no_start,
                      'meta': {'ctx': f'{start_kind}/{where}/{len(igs)}ign' + ('/nostart' if no_start else ''), 'kinds': [], 'depth': 0}})
     return jobs
+
+
+# ignore declarations that a grammar inherits: (chain of descriptions, the same as one grammar per level, inputs)
+EXTENDS_CHAINS = [
+    (['grammar {p}a\nignore /\\s+/\nstart = Item*\nItem = "x"\n',
+      'grammar {p}b extends {p}a\noverride Item = Pair | super.Item\nPair = "y" >> "z"\n',
+      'grammar {p}c extends {p}b\noverride Pair = "y" >> "w" | super.Pair\n'],
+     ['ignore /\\s+/\nstart = Item*\nItem = "x"\n',
+      'ignore /\\s+/\nstart = Item*\nItem = Pair | "x"\nPair = "y" >> "z"\n',
+      'ignore /\\s+/\nstart = Item*\nItem = Pair | "x"\nPair = "y" >> "w" | "y" >> "z"\n'],
+     ['x y z x', 'xyzx', ' x', 'y z', '', 'x y w', ' y  z ', 'x yz']),
+    (['grammar {p}a\nignore / +/\nignore /#[^\\n]*\\n?/\nstart = Word+\nWord = /[a-z]+/\n',
+      'grammar {p}b extends {p}a\noverride start = "begin" >> Word+ << "."\n',
+      'grammar {p}c extends {p}b\nclass Start {{ head: Word; tail: ":" >> Word* }}\n'],
+     ['ignore / +/\nignore /#[^\\n]*\\n?/\nstart = Word+\nWord = /[a-z]+/\n',
+      'ignore / +/\nignore /#[^\\n]*\\n?/\nstart = "begin" >> Word+ << "."\nWord = /[a-z]+/\n',
+      'ignore / +/\nignore /#[^\\n]*\\n?/\nclass Start {{ head: Word; tail: ":" >> Word* }}\nWord = /[a-z]+/\n'],
+     ['  begin ab cd.', 'begin ab.  # done\n', 'begin ab .', ' ab cd', '  ab: cd ef', 'ab:cd', ' # c\n ab : cd', '', 'begin.']),
+    (['grammar {p}a\nignore Sp = / +/\nstart = Item+\nItem = "x"\n',
+      'grammar {p}b extends {p}a\nignore /#+/\noverride start = "go" >> Item*\n'],
+     ['ignore Sp = / +/\nstart = Item+\nItem = "x"\n',
+      'ignore Sp = / +/\nignore /#+/\nstart = "go" >> Item*\nItem = "x"\n'],
+     [' x x', '  go x x', 'go # x', '#go x', 'gox#x', '']),
+]
+
+
+def extends_family(seed):
+    bad = []
+    n = 0
+    for ci, (levels, flats, inputs) in enumerate(EXTENDS_CHAINS):
+        fix = lambda t: t.replace('{p}', f'c04x{seed}_{ci}_').replace('{{', '{').replace('}}', '}')      # noqa: E731
+        mods = []
+        try:
+            for t in levels:
+                mods.append(realrun.compile_grammar(fix(t))[0])
+        except Exception as exc:      # noqa: BLE001
+            bad.append({'key': f'extends|{ci}', 'sig': f'extends|{ci}', 'kind': 'spec',
+                        'what': f'chain {ci} with inherited ignore declarations does not compile: {type(exc).__name__}: {str(exc)[:150]}'})
+            continue
+        for li, (mod, ft) in enumerate(zip(mods, flats)):
+            flat, _ = realrun.compile_grammar(fix(ft))
+            for t in inputs:
+                a = realrun.run_real_api(mod.parse, t, 0, True)[0]
+                b = realrun.run_real_api(flat.parse, t, 0, True)[0]
+                n += 1
+                if a != b and not (a[0] == b[0] == 'E'):
+                    bad.append({'key': f'extends|{ci}|{li}|{t}', 'sig': f'extends|{ci}|{li}', 'kind': 'spec', 'input': t,
+                                'what': f'inherited ignore declarations, chain {ci} level {li}: on {t!r} the derived grammar gives {str(a)[:90]}, '
+                                        f'the same rules in one grammar give {str(b)[:90]}'})
+                    break
+    return bad, n
 
 
 def run(tier, seed, lean):
@@ -169,6 +224,10 @@ def run(tier, seed, lean):
     out = c01.summarize(results, 'grammars with ignore declarations (named/anonymous, 1-2 patterns, before/after/split, plain or class start rule)')
     out['coverage']['prepare_correspondence_checked'] = sum(r.get('prep_checked', 0) for r in results)
     out['coverage']['lengthening_metamorphic_cases'] = sum(r.get('lengthen_cases', 0) for r in results)
+    ev, en = extends_family(seed)
+    out['violations'] += ev
+    out['coverage']['evaluations'] += en
+    out['coverage']['inherited_ignore_cases'] = en
     return out
 
 
